@@ -572,8 +572,8 @@ def ctypes_records(n, seed, first_id=0):
 import re as _re
 
 _SEEK = _re.compile(r"stream\.seek\(o \+ (\d+)\)")
-_ALIGN = _re.compile(r"stream\.seek\(-stream\.tell\(\) & \((\d+) - 1\), 1\)")
-_TAIL = _re.compile(r"stream\.seek\(-stream\.tell\(\) & \(cls\.alignment - 1\), 1\)")
+_ALIGN = _re.compile(r"stream\.seek\(-\(stream\.tell\(\) - o\) & \((\d+) - 1\), 1\)")
+_TAIL = _re.compile(r"stream\.seek\(-\(stream\.tell\(\) - o\) & \(cls\.alignment - 1\), 1\)")
 _READ = _re.compile(r"buf = stream\.read\((\d+)\)")
 _FIELD = _re.compile(r'r\["([^"]+)"\] = (.*)')
 
@@ -616,7 +616,7 @@ def plan_shape(T):
             if "bit_reader.read(" in rhs:
                 ops.append({"op": "bits", "n": 0, "names": [name]})
                 block = None
-            elif "._read(stream, context=r)" in rhs:
+            elif "._read(stream, context=r)" in rhs or "._read(stream, context=c)" in rhs:
                 ops.append({"op": "sub", "n": 0, "names": [name]})
                 block = None
             elif block is not None:
